@@ -410,6 +410,15 @@ fn probes(obs: &mut Obs, thorough: bool) -> Res {
             jobs.push((k, *d));
         }
     }
+    // long flat queries are cheap: every tier takes them to 65 536 elements (a selection, a chain or a
+    // disjunction that is *evaluated* element by element must not need stack in proportion)
+    if !thorough {
+        for k in flat_kinds.iter() {
+            for d in [16384usize, 65536] {
+                jobs.push((k, d));
+            }
+        }
+    }
     for k in doc_kinds {
         for d in [8usize, 64, 256, 512, 900, 1024, 2048] {
             jobs.push((k, d));
